@@ -30,6 +30,8 @@ StepAction(e) ==
     [] e.op = "unit" -> Construct(e.r, e.str)
     [] e.op = "define" -> DefineUnit(e.r, e.scale, e.pfx)
     [] e.op = "handle" -> ShallowHandle(e.r, e.how)
+    [] e.op = "picklereg" -> PickleReg(e.r, e.how, e.str)
+    [] e.op = "inbase" -> InBase(e.r, e.str, e.sys, e.str2)
     [] e.op = "new" -> NewPlain(e.defs, e.usys)
     [] e.op = "lutalias" -> NewLutAlias(e.r, e.defs)
     [] e.op = "lutcopy" -> NewLutCopy(e.r)
@@ -68,7 +70,7 @@ TOk(e) == /\ ResOk(e)
 
 (* ------------------------------- P ------------------------------- *)
 Edit(e) == e.op \in {"add", "modify", "remove", "define"}
-Creation(e) == e.op \in {"new", "lutalias", "lutcopy", "json", "deepcopy", "unpickle", "unitcopy", "handle"}
+Creation(e) == e.op \in {"new", "lutalias", "lutcopy", "json", "deepcopy", "unpickle", "unitcopy", "handle", "picklereg"}
 \* groups of registries NOT independently created: lut= (the caller handed over the same dict) and shallow handles
 PGrp(e) == IF Creation(e) /\ e.obs.k = "new" THEN [pgrp EXCEPT ![e.obs.r] = IF e.op \in {"lutalias", "handle"} THEN pgrp[e.r] ELSE e.obs.r] ELSE pgrp
 \* which registry objects are the default registry: registry 0 and every shallow handle (copy.copy) on it
@@ -77,7 +79,10 @@ PRoute(e) == IF Creation(e) /\ e.obs.k = "new" THEN [proute EXCEPT ![e.obs.r] = 
 PMayChange(e) == IF e.op \in {"binop", "rebind", "convert", "new"} \/ (pdef[e.r] /\ e.op \in {"modify", "remove"}) THEN {}
                  ELSE {pgrp[e.r]}
 \* C13_Frame on the observation: which registries resolve something else than before the call
-Victims(e) == {r \in RegIds : Prev.live[r + 1] /\ e.live[r + 1] /\ pgrp[r] \notin PMayChange(e) /\ e.dig[r + 1] # Prev.dig[r + 1]}
+\* (dig = what Unit(p, registry=r) gives; num = NUMBERS computed through r: conversions into the built-in unit systems
+\*  and through in_mks().to(name) - both observed from the same process-wide memo state, which the observation restores)
+Victims(e) == {r \in RegIds : Prev.live[r + 1] /\ e.live[r + 1] /\ pgrp[r] \notin PMayChange(e)
+                               /\ (e.dig[r + 1] # Prev.dig[r + 1] \/ e.num[r + 1] # Prev.num[r + 1])}
 DFoo(e) == dfoo \/ (pdef[e.r] /\ e.op \in {"add", "define"})
 DDef(e) == ddef \/ (e.r = 0 /\ e.op = "define")
 \* classification of a binary operation whose result does not carry the left operand's registry
@@ -94,7 +99,8 @@ Fail(e, clause, victim, cls) ==
                  actor |-> proute[e.r], victim |-> victim, cls |-> cls]))
 Detail(e) == CASE e.op = "binop" -> e.fn
                [] e.op = "rebind" -> IF e.bypass THEN "bypass_validation" ELSE "validated"
-               [] e.op \in {"convert", "handle"} -> e.how
+               [] e.op \in {"convert", "handle", "picklereg"} -> e.how
+               [] e.op = "inbase" -> e.sys
                [] e.op \in {"unitcopy"} -> IF e.deep THEN "deep" ELSE "shallow"
                [] OTHER -> ""
 PReport(e) ==
@@ -108,6 +114,12 @@ PReport(e) ==
   /\ (\E i \in DOMAIN e.nsnew : ~(DDef(e) /\ e.nsnew[i] = "foo")) => Fail(e, "Namespace", "new-attribute", Detail(e))
   /\ (e.conv # Prev.conv) => Fail(e, "BuiltinConversions", "default", Detail(e))
   /\ (e.op = "binop" /\ e.obs.k = "res" /\ e.obs.r # e.obs.lreg) => Fail(e, "MixedLeft", e.fn, MixCls(e))
+  \* OwnTable: the unit that a conversion of r's data into a built-in unit system carries has the value r's OWN table
+  \* gives it (otherwise something outside r - another registry's earlier request, the default registry - decided it)
+  /\ \A r \in RegIds : e.live[r + 1] =>
+       \A i \in DOMAIN e.num[r + 1] :
+          (e.num[r + 1][i].k = "num" /\ e.num[r + 1][i].s # e.num[r + 1][i].ref) =>
+             Fail(e, "OwnTable", IF r = 0 THEN "default" ELSE proute[r], Detail(e))
 
 TraceNext ==
   \/ /\ tid <= Len(Traces) /\ l <= Len(Traces[tid].ev)
